@@ -909,6 +909,89 @@ theorem names_one_path_one_member (O : Oracle) (cfg : PlanCfg) (raw l : List Con
   · have := key (fun c => (archMember1 c).name) (fun c hc => arch_member_name c (hp c hc))
     simpa [archMembers, List.map_map, Function.comp_def] using this
 
+theorem stripSlash_cons (a : UInt8) (d : Bytes) (h : d ≠ []) : stripSlash (a :: d) = a :: stripSlash d := by
+  unfold stripSlash endsWithSlash
+  rw [List.getLast?_cons_of_ne_nil h, List.dropLast_cons_of_ne_nil h]
+  split <;> rfl
+
+/-- the path a planned destination stands for -/
+theorem strip_dst (c : Content) (x : Bytes) (hx : rcomps x ≠ [])
+    (hd : c.dst = if isDirType c.type then normDir x else normFile x) : stripSlash c.dst = normFile x := by
+  have hne : (joinWith slash (rcomps x)) ≠ [] := by
+    intro e
+    exact hx ((joinWith_nil_iff (rcomps x) (fun c hc => (rcomps_proper x c hc).1)).mp e)
+  have := strip_name c (joinWith slash (rcomps x) ++ (if isDirType c.type then [slash] else [])) x hx hd (by
+    rw [hd]; split
+    · rw [normDir_eq]; simp
+    · rw [normFile_eq]; simp)
+  rw [hd]
+  split
+  · rename_i ht
+    simp only [ht, if_true] at this
+    rw [normDir_eq]
+    show stripSlash (slash :: (joinWith slash (rcomps x) ++ [slash])) = normFile x
+    rw [stripSlash_cons slash _ (by simp)]
+    exact this
+  · rename_i ht
+    simp only [ht, if_false, List.append_nil, Bool.false_eq_true] at this
+    rw [normFile_eq, stripSlash_cons slash _ hne]
+    rw [normFile_eq] at this
+    exact this
+
+theorem planned_dst_ne_nil (c : Content) (h : Planned c) : c.dst ≠ [] := by
+  obtain ⟨x, _, hd⟩ := h
+  rw [hd]; split
+  · rw [normDir_eq]; simp
+  · rw [normFile_eq]; simp
+
+/-- **one path is one member, deb and ipk** (names are "." ++ destination; the changelog member deb adds is not part of
+    the plan and is named by its own rule) -/
+theorem names_one_path_one_member_deb_ipk (O : Oracle) (cfg : PlanCfg) (raw l : List Content) (h : plan O cfg raw = .ok l)
+    (hp : ∀ c ∈ l, Planned c) (now imt : Int) :
+    ((debMembers now imt l).map (fun m => stripSlash m.name)).Nodup
+    ∧ ((ipkMembers now imt l).map (fun m => stripSlash m.name)).Nodup := by
+  obtain ⟨m, _, hl, hinv⟩ := plan_ok_inv O cfg raw l h
+  have hs : (l.map (·.dst)).Pairwise (fun a b => ltB a b = true) := by rw [hl]; exact sorted_values cfg.packager m hinv
+  have hnd : l.Pairwise (fun a b => a.dst ≠ b.dst) := by
+    have := hs.imp (fun {a b} hab => ltB_ne a b hab)
+    rwa [List.pairwise_map] at this
+  have hclash := C05.plan_no_path_clash O cfg raw l h
+  have hmem : l.Pairwise (fun a b => a ∈ l ∧ b ∈ l) := by
+    rw [List.pairwise_iff_forall_sublist]
+    intro a b hab
+    exact ⟨hab.subset (by simp), hab.subset (by simp)⟩
+  -- two planned entries with different destinations stand for different paths
+  have sep : ∀ a b, a ∈ l → b ∈ l → a.dst ≠ b.dst → stripSlash a.dst ≠ stripSlash b.dst := by
+    intro a b ha hb hab e
+    obtain ⟨x, hx, hdx⟩ := hp a ha
+    obtain ⟨y, hy, hdy⟩ := hp b hb
+    have exy : normFile x = normFile y := by rw [← strip_dst a x hx hdx, ← strip_dst b y hy hdy, e]
+    by_cases ta : isDirType a.type = true <;> by_cases tb : isDirType b.type = true
+    · rw [if_pos ta] at hdx; rw [if_pos tb] at hdy
+      exact hab (by rw [hdx, hdy, normDir_of_normFile_eq x y exy])
+    · rw [if_pos ta] at hdx; rw [if_neg tb] at hdy
+      refine hclash y ⟨?_, ?_⟩
+      · rw [← hdy]; exact List.mem_map_of_mem hb
+      · rw [← normDir_of_normFile_eq x y exy, ← hdx]; exact List.mem_map_of_mem ha
+    · rw [if_neg ta] at hdx; rw [if_pos tb] at hdy
+      refine hclash x ⟨?_, ?_⟩
+      · rw [← hdx]; exact List.mem_map_of_mem ha
+      · rw [normDir_of_normFile_eq x y exy, ← hdy]; exact List.mem_map_of_mem hb
+    · rw [if_neg ta] at hdx; rw [if_neg tb] at hdy
+      exact hab (by rw [hdx, hdy, exy])
+  have gen : ∀ (f : Content → Option Member), (∀ c ∈ l, ∀ mm, f c = some mm → mm.name = dot :: c.dst) →
+      ((l.filterMap f).map (fun mm => stripSlash mm.name)).Nodup := by
+    intro f hf
+    rw [List.nodup_iff_pairwise_ne, List.pairwise_map]
+    refine List.Pairwise.filterMap f ?_ (hnd.and hmem)
+    intro a b ⟨hab, ha, hb⟩ ma hma mb hmb e
+    rw [hf a ha ma hma, hf b hb mb hmb, stripSlash_cons dot _ (planned_dst_ne_nil a (hp a ha)),
+      stripSlash_cons dot _ (planned_dst_ne_nil b (hp b hb))] at e
+    exact sep a b ha hb hab (List.cons.inj e).2
+  constructor
+  · exact gen (debMember1 now imt) (fun c hc mm hmm => deb_member_name now imt c (hp c hc) mm hmm)
+  · exact gen (ipkMember1 now imt) (fun c hc mm hmm => ipk_member_name now imt c (hp c hc) mm hmm)
+
 /-- **parents precede children** (`_partial` as in C05: plans without `tree` entries): the member names,
     put back under "/", are the plan's destinations in plan order, for which C05 proves that every
     ancestor directory is present and earlier -/
